@@ -65,5 +65,7 @@ class C04(CacheProp):
                             v, st["n"], close_done_at))
         return fails
 
+    stress_kinds = ("dupexit", "lost")
+
 
 PROP = C04()
